@@ -693,7 +693,7 @@ fn real_maps(f: &Fill, base: u8, shape: u16, hs: &[rimt::IommuOffset]) -> Option
         let h = hs[sel(sv, hs.len()).wrapping_add(m as usize) % hs.len()];
         v.push(rimt::IdMapping::new(f.u32(b), f.u32(b + 1), f.u32(b + 2), h, f.bool(b + 3), f.bool(b + 4), f.bool(b + 5)));
     }
-    Some(v)
+    Some(crate::util::spare(v))
 }
 fn ref_maps(w: &mut W, out: &mut RefOut, f: &Fill, base: u8, shape: u16, hs: &[usize]) {
     let (nm, some, sv) = (nmaps(f, base, shape), shape & 4 != 0, (shape >> 3) & 7);
@@ -780,7 +780,7 @@ impl Table for Rimt {
                 I_IOMMU => {
                     let (nw, ws, bs, ps, xs) = (f.size().map(|n| n as u16).unwrap_or(cnt(s & 3, 30)), s & 4 != 0, s & 8 != 0, s & 16 != 0, s & 32 != 0);
                     let wires = if ws {
-                        Some((0..nw).map(|w| { let b = 7 + 4 * (w % 4) as u8; rimt::InterruptWire::new(f.u32(b), f.bool(b + 1), f.bool(b + 2), f.u16(b + 3)) }).collect())
+                        Some(crate::util::spare((0..nw).map(|w| { let b = 7 + 4 * (w % 4) as u8; rimt::InterruptWire::new(f.u32(b), f.bool(b + 1), f.bool(b + 2), f.u16(b + 3)) }).collect()))
                     } else {
                         None
                     };
@@ -794,7 +794,7 @@ impl Table for Rimt {
                 }
                 _ => {
                     let maps = real_maps(f, 1, s, &hs);
-                    t.add_platform(rimt::Platform::new(f.u16(0), plat_name(op), maps));
+                    t.add_platform(rimt::Platform::new(f.u16(0), crate::util::spare_string(&plat_name(op)), maps));
                 }
             }
             obs(i + 1, &t, &[]);
